@@ -207,6 +207,11 @@ func (state inSession) handleResendRequest(session *session, msg *Message) (next
 		endSeqNo = expectedSeqNum - 1
 	}
 
+	if beginSeqNo < 1 {
+		// Sequence numbers start at 1; walking the store from a hostile negative number would never end.
+		beginSeqNo = 1
+	}
+
 	if err := state.resendMessages(session, int(beginSeqNo), endSeqNo, *msg); err != nil {
 		return handleStateError(session, err)
 	}
